@@ -51,12 +51,20 @@ def depth_of(index, limit=80):
     return best
 
 
+# An unrelated index that is built *before* the index under test in every case: two indexes
+# living in the same process must not influence each other (identifiers are disjoint).
+DECOY = [(1000, (0, 0, 8, 8)), (1001, (1, 1, 1, 1)), (1002, (-5, -5, -4, -4)), (1003, (2, 0, 2, 3)),
+         (1004, (0, 2, 3, 2)), (1005, (3, 3, 9, 9))]
+DECOY_QUERIES = [(-9, -9, 9, 9), (1, 1, 1, 1), (-5, -5, -5, -5)]
+
+
 def check_collection(boxes, queries):
     """boxes: list of (id, box).  Returns ([(clause, msg, query)], depth)."""
     rtree = _lib()
     desc = f"Index({boxes!r})"
     try:
         with core.watchdog(10.0):
+            decoy = rtree.Index(list(DECOY))
             index = rtree.Index(list(boxes))
     except core.CaseTimeout:
         return [("loop", f"{desc}: construction did not return within 10 s", None)], 0
@@ -81,6 +89,18 @@ def check_collection(boxes, queries):
                         f"gives {sorted(want)} (missed {missed}, extra {extra})", query))
             if len(out) > 3:
                 break
+    for query in DECOY_QUERIES:
+        try:
+            got = decoy.intersection(query)
+        except Exception as exc:            # pylint: disable=broad-except
+            out.append(("isolation", f"after building {desc}, an index built earlier raised "
+                        f"{exc!r} for query {query}", None))
+            break
+        if got != brute(DECOY, query):
+            out.append(("isolation", f"after building {desc}, the earlier Index({DECOY!r})"
+                        f".intersection({query}) = {sorted(got)}; brute force gives "
+                        f"{sorted(brute(DECOY, query))}", None))
+            break
     return out, depth
 
 
